@@ -609,18 +609,24 @@ Fixpoint served_connections (max : N) (num : N) (k : nat) : list bool :=
 Inductive accept_event :=
 | AcConn                 (* poll_accept yields a connection *)
 | AcError (kind : N)     (* poll_accept yields an error (ECONNABORTED, EMFILE, ...): logged *)
-| AcStreamFails.         (* accepted, but the stream's own future fails: only its task ends *)
+| AcStreamFails          (* accepted, but the stream's own future fails: only its task ends *)
+| AcStalled.             (* accepted, but the stream's own future never completes (a peer
+                            that does not finish its TLS handshake) *)
 
 (* which attempts are served; [stops]: whether an accept error ends the loop
-   (T1: accept_error_stops_server = false) *)
-Fixpoint accept_loop_gen (stops : bool) (evs : list accept_event) : list bool :=
+   (T1: accept_error_stops_server = false); [inline]: whether the accept loop itself
+   awaits the stream's future instead of the per-connection task
+   (T1: setup_awaited_in_accept_loop = false) *)
+Fixpoint accept_loop_gen (stops inline : bool) (evs : list accept_event) : list bool :=
   match evs with
   | [] => []
-  | AcConn :: t => true :: accept_loop_gen stops t
-  | AcStreamFails :: t => false :: accept_loop_gen stops t
-  | AcError _ :: t => false :: (if stops then map (fun _ => false) t else accept_loop_gen stops t)
+  | AcConn :: t => true :: accept_loop_gen stops inline t
+  | AcStreamFails :: t =>
+      false :: (if inline && stops then map (fun _ => false) t else accept_loop_gen stops inline t)
+  | AcStalled :: t => false :: (if inline then map (fun _ => false) t else accept_loop_gen stops inline t)
+  | AcError _ :: t => false :: (if stops then map (fun _ => false) t else accept_loop_gen stops inline t)
   end.
-Definition accept_loop := accept_loop_gen accept_error_stops_server.
+Definition accept_loop := accept_loop_gen accept_error_stops_server setup_awaited_in_accept_loop.
 
 (* ---- cookies.rs preprocess: the two answers the middleware makes itself without
    looking at the request's question (the others start from start_answer) ------- *)
@@ -715,8 +721,25 @@ Definition c16_pad (d : bytes) (cfg : option N) :=
       Ok (match r with Some m => Some (observe2 m) | None => None end)
   end.
 
-Definition c16_accept (evs : list (option (option N))) : list bool :=
-  accept_loop (map (fun e => match e with None => AcConn | Some None => AcStreamFails | Some (Some k) => AcError k end) evs).
+(* dgram.rs: the hint of a request is the configured limit at the time the datagram
+   is received (DgramServer::reconfigure takes effect for later requests) *)
+Definition cfg_at_receive (live : bool) (at_start now : option N) : option N :=
+  if live then now else at_start.
+
+(* a request before and one after a reconfiguration from cfg1 to cfg2 (both as given
+   to Config::set_max_response_size; None = no limit) *)
+Definition c16_recfg (id b2 : N) (labels : list N) (client : option N) (cfg1 cfg2 : option N)
+  (rb2 n_an an_len : N) (opt : option (N * N)) :=
+  let rq := mk_request id b2 labels 1 client in
+  let m := mk_response rq rb2 0 n_an an_len 0 11 opt in
+  do r1 <- udp_response rq (cfg_hint cfg1) m;
+  do r2 <- udp_response rq (cfg_at_receive dgram_cfg_read_per_datagram (cfg_hint cfg1) (cfg_hint cfg2)) m;
+  Ok (observe r1, observe r2).
+
+(* event codes: 0 connection, 1 stream future fails, 2 stream future never completes, 100 + k accept error k *)
+Definition c16_accept (evs : list N) : list bool :=
+  accept_loop (map (fun e => if e =? 0 then AcConn else if e =? 1 then AcStreamFails
+                             else if e =? 2 then AcStalled else AcError (e - 100)) evs).
 Definition c16_idle (timeout wait : N) : bool := idle_open 0 timeout wait.
 Definition c16_limit (max : N) (k : N) : list bool := served_connections max 0 (N.to_nat k).
 
